@@ -269,8 +269,8 @@ pub fn check_case(c: &Case, rep: &mut Report) {
                             _ => 0x0800,
                         };
                         let want = base | if *down { 0x8000 } else { 0 };
-                        // for a plain move the DOWN bit has no meaning and is not constrained
-                        let flags_ok = if *b == 0 { e.a & 0x7fff == base } else { e.a == want };
+                        // the press state is encoded by the DOWN bit whatever the button, a plain move included
+                        let flags_ok = e.a == want;
                         if e.kind != 0x8001 {
                             viol.push(("C11/pointer/message-type".into(), format!("op {} {:?}: messageType {:#x}", i, op, e.kind)));
                         } else if !flags_ok {
